@@ -355,6 +355,10 @@ def get_model_parser(top_rule, comments_model, **kwargs):
             # Contained elements are tuples: (instance, metaattr, cross-ref)
             self._crossrefs = []
 
+            # True while this parser holds one instrumentation count on
+            # each user class (see _replace_user_attr_methods).
+            self._user_attr_methods_replaced = False
+
         def clone(self):
             """
             Responsibility: create a clone in order to parse a separate file.
@@ -372,6 +376,7 @@ def get_model_parser(top_rule, comments_model, **kwargs):
             the_clone._inst_stack = []
             the_clone._instances = {}
             the_clone._crossrefs = []
+            the_clone._user_attr_methods_replaced = False
 
             # TODO self.memoization = memoization
             the_clone.comments = []
@@ -519,6 +524,7 @@ def get_model_parser(top_rule, comments_model, **kwargs):
             Replace get/set/del(attr) methods on user classes
             to support postponing of user obj initialization.
             """
+            self._user_attr_methods_replaced = True
             for user_class in self.metamodel.user_classes.values():
                 if "_tx_instrumented" not in user_class.__dict__:
                     self._replace_user_attr_methods_for_class(user_class)
@@ -528,8 +534,14 @@ def get_model_parser(top_rule, comments_model, **kwargs):
         def _restore_user_attr_methods(self):
             """
             Restore original get/set/del(attr) methods on user
-            classes.
+            classes. Does nothing if this parser has not replaced them
+            or has restored them already: the instrumentation count of a
+            class is shared by all parsers (nested loads, imported models)
+            and each of them must give back exactly what it has taken.
             """
+            if not self._user_attr_methods_replaced:
+                return
+            self._user_attr_methods_replaced = False
             for user_class in self.metamodel.user_classes.values():
                 if hasattr(user_class, "_tx_instrumented"):
                     user_class._tx_instrumented -= 1
